@@ -576,6 +576,8 @@ pub struct World {
     pub feed_hist: Vec<(u128, u64)>,
     pub tx_count: u64,
     pub store: Rc<RefCell<RawMap>>,
+    pub deploy_height: u64,
+    pub deploy_time: u64,
 }
 
 fn u(v: u128) -> Uint128 {
@@ -798,7 +800,11 @@ impl World {
             feed_hist: vec![],
             tx_count: 0,
             store,
+            deploy_height: 0,
+            deploy_time: 0,
         };
+        w.deploy_height = w.height();
+        w.deploy_time = w.now();
         // initial oracle price
         let now = w.now();
         let o = w.set_oracle(cfg.oracle_price, now);
@@ -818,6 +824,9 @@ impl World {
                 assert!(o.ok);
             }
         }
+        // histories start in the block after deployment (the vAMM's instantiate snapshot belongs to the
+        // deployment block; trading in that very block is not an execution a deployed system has)
+        w.advance(1, 6);
         w
     }
 
